@@ -150,7 +150,7 @@ class Runner:
             algo = SAC(
                 buffer_size=cls["buffer"], gamma=jnp.array(0.9), learning_starts=cls["starts"], num_envs=cls["n"], num_steps=cls["T"],
                 batch_size=cls["batch"], tau=jnp.array(0.25), policy_frequency=cls["pfreq"], autotune=cls["autotune"], initial_alpha=0.2,
-                q_width_size=4, q_depth=1,
+                q_width_size=4, q_depth=1, **({"alpha_lr": cls["alpha_lr"]} if "alpha_lr" in cls else {}),
             )
             object.__setattr__(algo, "q_optimizer", optax.sgd(self.sgd_lr))
         self.algo0 = algo
